@@ -212,6 +212,21 @@ CHECKS = {
         "Trusted: hook H3/H6 values as ground truth; leak signatures carry the outcome class; an unmatched decrement is "
         "invisible once no leak has raised the counter (saturating subtraction).",
     ),
+    "C18": (
+        "exploration",
+        "stream-equality + EOF-ordering + independent PROXY v2 parser monitor on a live worker",
+        "DESIGN.md section 3 C18",
+        "Scripted TCP clients and backends through real workers in six modes (plain, send, expect, relay, WebSocket, "
+        "expect on HTTP): both byte streams must equal their keystreams (mismatches localised), a FIN may be observed only "
+        "after every byte sent before it, SEND-mode headers are compared with the sockets' own addresses by an "
+        "independent v2 parser, incoming headers (10 shapes: IPv4/IPv6/UNIX/UNSPEC, LOCAL/PROXY, TLV tails) are split at "
+        "EVERY byte position with and without joined payload (exhaustive sweep), malformed/oversized/truncated headers "
+        "must close with nothing forwarded; sizes up to 8 MB (64 MB thorough) under segmented writers, slow readers and "
+        "shrunk socket buffers on both sides (sozu-side EAGAIN counted by the hooks).",
+        "Trusted: the harness's own PROXY v2 builder/parser (written from the haproxy spec); UNIX-family and PROXY+UNSPEC "
+        "headers are optional per the spec and exempt; reverse-direction truncation after the first FIN is a known "
+        "finding (session ends at the first end-of-stream).",
+    ),
 }
 
 ALL = ["C%02d" % i for i in range(1, 21)]
